@@ -282,6 +282,8 @@ func genC11(e *emitter, tier string, seed uint64) {
 	if tier != "quick" {
 		n = 20000
 	}
+	// quotes that cannot answer, on a generator of their own
+	genNoQuoteC11(e, newRng(seed^0xC11F), n/5)
 	// input / output counts on either side of the one-byte varint limit (the two count prefixes change width separately)
 	boundary := [][2]int{{1, 252}, {1, 253}, {2, 254}, {252, 1}, {253, 1}, {254, 2}, {253, 253}, {252, 253}, {253, 252}}
 	for i := 0; i < n; i++ {
